@@ -6,7 +6,7 @@ usage: tools/seedmatrix.py [id ...]      extra: ID:PROP runs another property's 
 import json, os, re, subprocess, sys, time
 from pathlib import Path
 V = Path(__file__).resolve().parent.parent
-ids = sys.argv[1:] or sorted(p.name for p in (V / 'seeded').iterdir() if p.is_dir())
+ids = sys.argv[1:] or sorted(p.name for p in (V / 'seeded').iterdir() if (p / 'meta.json').exists())
 rows = []
 for item in ids:
     sid, _, prop = item.partition(':')
